@@ -35,22 +35,48 @@ theorem C17_rt_cluster_equiv (order : List CfgField) (m m₂ : Meta) (h : WfMeta
     (ho : OrderOk order) : ∃ m', parse (m₂.toArgs order) = .ok (m', true) ∧ MetaEquiv m' m :=
   ⟨m₂, parseWith_toArgs _ order m₂ (WfMeta.equiv he h) ho, he⟩
 
-/-- **cluster meta, compressed encoding**, for any lossless codec -/
+/-- **plain encoding, any range lists** (reversed, unsorted, overlapping, adjacent …): the
+argument vector decodes to the meta with every range list compacted -/
+theorem C17_rt_cluster_any (dec : Str → Option MetaData) (order : List CfgField) (m : Meta)
+    (h : BdMeta m) (ho : OrderOk order) : parseWith dec (m.toArgs order) = .ok (m.compacted, true) :=
+  parseWith_toArgs_bd dec order m h ho
+
+/-- **cluster meta, compressed encoding**, for any lossless codec and any range lists: the blob
+decodes to the meta with every range list compacted (the normalisation loop of fix 23e5d8f) -/
 theorem C17_rt_compressed (c : Codec) (m : Meta) (hv : m.version = SET_CLUSTER_API_VERSION)
     (he : m.epoch ≤ u64Max) (hf : m.flags.compress = true) (hr : ReprData m.data) :
-    ∃ m', parseWith c.dec (m.toCompressedArgs c.enc) = .ok (m', true) ∧ MetaEquiv m' m :=
+    ∃ m', parseWith c.dec (m.toCompressedArgs c.enc) = .ok (m', true) ∧ MetaEquiv m' m.compacted :=
   parseWith_compressed c m hv he hf hr
 
-/-- **both encodings decode to the same value** (they differ in the COMPRESS flag only) -/
-theorem C17_plain_eq_compressed (c : Codec) (order : List CfgField) (m : Meta) (h : WfMeta m) (ho : OrderOk order) :
+/-- … in particular a well-formed meta decodes to itself -/
+theorem C17_rt_compressed_wf (c : Codec) (m : Meta) (h : WfMeta m) :
+    ∃ m', parseWith c.dec (({ m with flags := { m.flags with compress := true } } : Meta).toCompressedArgs c.enc) = .ok (m', true) ∧
+      MetaEquiv m' { m with flags := { m.flags with compress := true } } := by
+  obtain ⟨m', h1, h2⟩ := parseWith_compressed c { m with flags := { m.flags with compress := true } } h.1 h.2.1 rfl
+    (wfMeta_repr m h)
+  refine ⟨m', h1, ?_⟩
+  have hc : ({ m with flags := { m.flags with compress := true } } : Meta).compacted =
+      { m with flags := { m.flags with compress := true } } := by
+    have := h.compacted
+    cases m
+    simp only [Meta.compacted, Meta.mk.injEq] at this ⊢
+    simp only [true_and, and_true] at this ⊢
+    exact this
+  rw [hc] at h2
+  exact h2
+
+/-- **both encodings decode to the same value, whatever the range lists look like**: the plain
+form yields `m.compacted`, the compressed form a reordering of it with the COMPRESS flag set -/
+theorem C17_plain_eq_compressed (c : Codec) (order : List CfgField) (m : Meta) (h : BdMeta m) (ho : OrderOk order) :
     ∃ m₁ m₂, parseWith c.dec (m.toArgs order) = .ok (m₁, true) ∧
       parseWith c.dec (({ m with flags := { m.flags with compress := true } } : Meta).toCompressedArgs c.enc) = .ok (m₂, true) ∧
+      m₁ = m.compacted ∧
       m₁.version = m₂.version ∧ m₁.epoch = m₂.epoch ∧ m₁.flags.force = m₂.flags.force ∧ m₁.cluster = m₂.cluster ∧
       m₂.local.Perm m₁.local ∧ m₂.peer.Perm m₁.peer ∧ m₁.config = m₂.config := by
   obtain ⟨m₂, h2, e1, e2, e3, e4, e5, e6, e7⟩ :=
-    parseWith_compressed c { m with flags := { m.flags with compress := true } } h.1 h.2.1 rfl (wfMeta_repr m h)
-  refine ⟨m, m₂, parseWith_toArgs c.dec order m h ho, h2, e1.symm, e2.symm, ?_, e4.symm, e5, e6, e7.symm⟩
-  rw [e3]
+    parseWith_compressed c { m with flags := { m.flags with compress := true } } h.1 h.2.1 rfl (bdMeta_repr m h)
+  refine ⟨m.compacted, m₂, parseWith_toArgs_bd c.dec order m h ho, h2, rfl, e1.symm, e2.symm, ?_, e4.symm, e5, e6, e7.symm⟩
+  rw [e3]; rfl
 
 /-- **replication meta**: `parse_repl_meta ∘ encode_repl_meta = id` -/
 theorem C17_rt_repl (m : ReplMeta) (h : WfRepl m) : parseReplTokens m.encode = .ok m :=
@@ -314,6 +340,15 @@ example : parse (exMeta.toArgs CfgField.all) = .ok (exMeta, true) :=
   C17_rt_cluster _ _ _ (by decide) (by decide)
 example : (exMeta.toArgs CfgField.all).length = 43 := by decide
 example : ReprData exMeta.data := wfMeta_repr _ (by decide)
+
+/-- a meta whose lists are reversed / unsorted / adjacent: not well-formed, but both wire forms
+denote its compacted form -/
+def exRaw : Meta :=
+  { exMeta with «local» := [([65, 58, 49], [⟨[⟨300, 200⟩, ⟨0, 100⟩, ⟨101, 150⟩], .none⟩])] }
+example : BdMeta exRaw ∧ ¬ WfMeta exRaw := by decide
+example : exRaw.compacted.local = [([65, 58, 49], [⟨[⟨0, 150⟩, ⟨200, 300⟩], .none⟩])] := by decide
+example : parse (exRaw.toArgs CfgField.all) = .ok (exRaw.compacted, true) :=
+  C17_rt_cluster_any _ _ _ (by decide) (by decide)
 
 def exRepl : ReplMeta :=
   ⟨233, ⟨true, false⟩, [⟨[99], [65], [⟨[66], [67]⟩]⟩], [⟨[99], [66], [⟨[65], [67]⟩, ⟨[68], [69]⟩]⟩]⟩
